@@ -118,7 +118,7 @@ func checkC10(c *Ctx) {
 	var watchFn *ssa.Function
 	for _, op := range m.StoreOps() {
 		if op.Method == "Watch" {
-			watchFn = op.Fn
+			watchFn = m.ownerOf(op.Fn) // the watch handling, however its body is split (openWatch, serveWatch, ...)
 		}
 	}
 	if watchFn == nil {
